@@ -78,6 +78,19 @@ claimed["C18"] = ("contract-style frame obligations discharged on an over-approx
   "Assumed: Go memory safety (a field changes only through a store to its address); no reflection-based method calls, unsafe or cgo; library callbacks limited to function values whose type names no yq type and to methods of interfaces declared outside yq; package cmd's globals (flags) are set before evaluation.",
   "DESIGN.md §5 C18")
 
+claimed["C04"] = ("contract-based deductive verification: call-site assertions on the arguments of every assignment the merge performs, and postconditions of its helpers, as VCs from go/ssa discharged by z3/cvc5",
+  "Mechanism only. Proved for all inputs: `x * y` on maps/sequences merges into a fresh copy of x (never x or y themselves) under a writable context; a null right operand gives a copy of x; mergeObjects performs exactly one assignment per node of the right operand's recursive descent, in that order, skipping `!!merge` keys, and returns the node it was given to fill; each assignment targets the left node alone, takes its value from that right node by reference, and uses the operator the flags select (`+` on sequences: append; sequences without `d`, scalars and aliases: plain assign; otherwise attribute assign), never in update mode; the comment-precedence table of getComments. NOT decided: the merged value itself (it is computed by re-entering the interpreter with the synthesised assignment; the path it addresses comes from createTraversalTree and the recursive descent, both assumed), the algebraic identities (a * {} = a, a * a = a), the `?`/`n` flags inside the assign operators, the multi-file reduce form, and that x and y read the same afterwards (the dispatcher's contract is too coarse for that under a writable context).",
+  "Trusted: dispatcher contract, recursiveDecent (appends the nodes under its context in document order), createTraversalTree; functype contract of calculations.",
+  "DESIGN.md §5 C04")
+claimed["C05"] = ("contract-based deductive verification: postconditions and loop invariants of the yaml.v3 <-> candidate node conversion as VCs from go/ssa (fields of the external yaml.Node struct modelled as heap), discharged by z3/cvc5; recursion by contract",
+  "Proved for all inputs, one level per call and the tree by induction over the recursion: converting a yaml.v3 node into a candidate node (UnmarshalYAML, decodeIntoChild, copyFromYamlNode) and back (MarshalYAML, copyToYamlNode) keeps, for every node, the style number, tag, value, anchor, head/line/foot comment, line and column, maps the kind one-to-one (alias, scalar, mapping, sequence), keeps the number and order of children, and refuses unknown kinds; MapYamlStyle/MapToYamlStyle are the identity on style numbers. Together: yaml.Node -> CandidateNode -> yaml.Node reproduces those attributes. NOT decided: yaml.v3's own parsing and emitting, the leading-content pre-processing of the decoder and its re-emission (bufio + regexp), document nodes and alias pointers (copyToYamlNode does not set Alias; the emitter prints the value), the printer's separators (see C10), byte-for-byte idempotence.",
+  "Trusted: children of yaml nodes are non-nil and mappings have an even number of children (library invariant, assumed at entry); append/make copy semantics.",
+  "DESIGN.md §5 C05")
+claimed["C06"] = ("contract-based deductive verification: postconditions of the scalar conversion tables as VCs from go/ssa, discharged by z3/cvc5",
+  "Scalar tables only. Proved for all inputs: GetValueRep (what the JSON encoder is handed for a scalar) yields the exact int64 for `!!int` text (decimal, hex, octal; an error iff the text is not an int64), nil for `!!null`, the truthiness for `!!bool`, and the text verbatim for every other core tag; setScalarFromJson maps JSON null to a `!!null` scalar and a JSON string to a `!!str` scalar with the same text (the float32 branch would panic and is excluded by precondition: the JSON library yields float64 only). NOT decided: everything textual — string escaping, number lexing and printing, key order and object syntax of MarshalJSON/UnmarshalJSON (goccy/go-json, bytes.Buffer), floats (modelled as reals here), and integers beyond 2^53 on the way in (they pass through float64 in the library: F12, seen by reading, not decided by a check).",
+  "Trusted: strconv model, guessTagFromCustomType contract for custom tags.",
+  "DESIGN.md §5 C06")
+
 not_yet = {}
 
 def hook_commits():
